@@ -3,7 +3,7 @@ from functools import partial
 
 from . import engine
 from .rules import (tables, errflow, stop, scope, fold, hashorder, eqfield, cast, lock, witness, orpat, guard, parsepure,
-                    kernel, evalorder, layer, export, panic, misc, pairflowrule, variant, folddrop, queryguard, iterops, round3, forshape, typeprint, variance, round4, round6, round8, round10)
+                    kernel, evalorder, layer, export, panic, misc, pairflowrule, variant, folddrop, queryguard, iterops, round3, forshape, typeprint, variance, round4, round6, round8, round10, round11)
 
 TRUST = ["rustc: type checking, MIR construction, Instance resolution, auto traits",
          "pest / pest_meta: PEG semantics, silent/atomic rule semantics, PrattParser precedence climbing",
@@ -33,7 +33,7 @@ ITER_SCOPE = scope_prefix("instruction::reduce::", "<instruction::reduce::", "in
 STDLIB_SCOPE = scope_prefix("stdlib::", "<stdlib::", "variable::try_from::", "<variable::Variable as std::convert::From<std::io")
 
 prop("C01",
-     [guard.run, guard.run_mustcall, misc.run_fnexit, misc.run_looptype, misc.run_slicetype, misc.run_celltype, queryguard.run, fold.run, scope.run, round3.run_meetuse, round3.run_assigntyping, round3.run_cellmember, lock.run_global, lock.run, round4.run_fnlocal, variance.run, round10.run_retkind],
+     [guard.run, guard.run_mustcall, misc.run_fnexit, misc.run_looptype, misc.run_slicetype, misc.run_celltype, queryguard.run, round11.run_queryimpl, fold.run, scope.run, round3.run_meetuse, round4.run_meetoperand, round3.run_assigntyping, round3.run_cellmember, lock.run_global, lock.run, round4.run_fnlocal, variance.run, round10.run_retkind],
      "R-LOCK (a cell read without its lock, or through a second lock, lets a checked value change under the reader). R-VARIANCE: every assignability test of the checker goes through Type::matches, whose direction clauses and mandatory conjuncts are part of soundness. R-FNLOCAL: the scope entry of a function literal carries its result type. Also R-GLOBAL: no cache of parse results outlives the scope they were checked against. Also: Type::conjoin (a mere lower bound) is used only for parameter types (R-MEETUSE); `X=` is typed with the typing functions of X (R-ASSIGNTYPING). Decides the structural half of type soundness: all 43 static checks the soundness argument leans on exist, are tested "
      "before every success value of their creation function and cannot be bypassed (R-GUARD, R-MUSTCALL); falling off a function "
      "body yields () and MissingReturn stands in front of that for non-() functions (R-FNEXIT); the Type queries that compute "
@@ -55,7 +55,7 @@ prop("C02",
      "a frozen table turns every NEW panic-capable site into an alarm by design")
 
 prop("C03",
-     [pairflowrule.run, tables.run_dispatch, tables.run_precedence, partial(panic.run, name="R-PANIC"), guard.run_mustcall, queryguard.run, fold.run, errflow.run, parsepure.run, variant.run, round3.run_childkeep, round10.run_retkind],
+     [pairflowrule.run, tables.run_dispatch, tables.run_precedence, partial(panic.run, name="R-PANIC"), guard.run_mustcall, queryguard.run, round11.run_queryimpl, fold.run, errflow.run, parsepure.run, variant.run, round3.run_childkeep, round10.run_retkind],
      "R-RETKIND (an operator typed with a constant type whose kernel can build another kind: the folded value fails a downcast while parsing). R-CHILDKEEP (a statement or declaration filtered out of a module / block while it is created is still referred to by what stays: the folding pass then looks up a name that was never declared). Decides: every alternative the grammar can hand to a pair-walking function has an arm there (R-TABLES-D: primary, line/stm/"
      "body, type, match_arm, int, var_from_str) and every operator rule is registered in the Pratt parser (R-TABLES); every "
      "panic-capable site on the parse path is a reviewed row (R-PANIC); Type queries are guarded by their admissibility test "
@@ -87,7 +87,7 @@ prop("C05",
      "commutativity of Type::concat / conjoin is a reviewed reason, not proved")
 
 prop("C06",
-     [scope.run, layer.run, round4.run_declvalues, guard.run_mustcall, round6.run_unarycall, round6.run_whobinds, errflow.run],
+     [scope.run, layer.run, round4.run_declvalues, guard.run_mustcall, round6.run_unarycall, round6.run_whobinds, errflow.run, round11.run_identorder],
      "R-ERRFLOW (an error raised while a layer is built or a callee runs is never dropped, so a scope is never left half-built). R-UNARYCALL, R-WHOBINDS. R-MUSTCALL rows: a declared function (re)binds its own name on every path of its creation and folding. R-DECLVALUES: a declaration of several names does not see the names it declares. Decides: Function::exec (runs a body in the given scope) is called only from exec_with_args (fresh interpreter holding self + "
      "params) and the host-call harness (R-SCOPE); each scoping construct creates its layer at check, fold and run time and runs "
      "its inside against the new layer; capture = recreate against the creating interpreter; modules are built from exactly the "
@@ -121,7 +121,7 @@ prop("C09",
      "forbidden-callee scan, panic inventory, cast guards", "")
 
 prop("C10",
-     [variance.run, round3.run_meetuse, round4.run_meetcell, round4.run_meetoperand, round4.run_concat, fold.run, round6.run_noabsorb, round6.run_whounion],
+     [variance.run, round3.run_meetuse, round4.run_meetcell, round4.run_meetoperand, round4.run_concat, fold.run, round6.run_noabsorb, round6.run_whounion, round11.run_ziplen],
      "R-MEETOPERAND: the meet of two function types combines results with results and parameters with parameters of both operands. R-WHOUNION: unions are built by Type::concat only. R-FOLD: every Type query answers for a union member-wise (or delegates to exactly one other query); R-NOABSORB. R-CONCAT: the union of two types never drops a member by a `matches` test. R-MEETCELL: the meet never looks inside two cell types. Decides the direction clauses of the subtype relation on a provenance analysis of Type::matches, FunctionType::matches, "
      "StructType::matches and their closures (every value labelled with the operand - left S or right O -, field and variant "
      "payload it comes from; closures inherit the labels of what they capture and of the iterator they are handed to): arrays, "
@@ -135,7 +135,7 @@ prop("C10",
      "a comparison written through a helper the labels cannot follow is reported as undecidable")
 
 prop("C11",
-     [iterops.run_src, iterops.run_loop, iterops.run_pick, forshape.run, partial(panic.run, scope=ITER_SCOPE, name="R-PANIC"), round3.run_iterfold, round4.run_instrstate],
+     [iterops.run_src, iterops.run_loop, iterops.run_pick, forshape.run, partial(panic.run, scope=ITER_SCOPE, name="R-PANIC"), round3.run_iterfold, round4.run_instrstate, parsepure.run],
      "R-INSTRSTATE: no interior-mutable field in parsed code (a cached fragment / iterator would be shared by all evaluations). Also R-ITERFOLD: no iterator is created, pulled or reduced at fold time. Decides, on the code that implements the iterator operators (13 SimpleSL fragments embedded in the Rust sources, parsed "
      "with the repository's grammar and analysed path by path; 3 Rust pull loops on the MIR CFG): every iteration pulls its "
      "source at most once and never after the end marker; f / p run only on delivered elements, once each, never on the end "
@@ -180,8 +180,8 @@ prop("C14",
      "docs/operators.md is the documented table; four operators it omits are placed as the property statement says")
 
 prop("C15",
-     [typeprint.run, round4.run_structprint, round6.run_noabsorb, round6.run_whounion, typeprint.run_typetext],
-     "R-TYPETEXT: outside the type printers no message template continues a printed type's syntax (`mut {T}`, `->{T}`, `{T}|`). R-WHOUNION: only Type::concat builds a union value, so no union that the parser cannot produce (holding any / ! / one member / a nested union) is ever printed. R-NOABSORB: reading a union back never absorbs members. R-STRUCTPRINT: the struct type printer never funnels fields through a keyed collection. Decides the structural half of the print / re-parse round trip of types: the printing code (Display of Type, FunctionType, "
+     [typeprint.run, round4.run_structprint, round6.run_noabsorb, round6.run_whounion, typeprint.run_typetext, hashorder.run_hash],
+     "R-HASH: the re-parsed type is compared with the printed one through Eq, and a union compares its members as a HashSet: a Hash impl of a type that observes hash iteration order makes equal types unequal. R-TYPETEXT: outside the type printers no message template continues a printed type's syntax (`mut {T}`, `->{T}`, `{T}|`). R-WHOUNION: only Type::concat builds a union value, so no union that the parser cannot produce (holding any / ! / one member / a nested union) is ever printed. R-NOABSORB: reading a union back never absorbs members. R-STRUCTPRINT: the struct type printer never funnels fields through a keyed collection. Decides the structural half of the print / re-parse round trip of types: the printing code (Display of Type, FunctionType, "
      "MultiType, read from the MIR as templates + nested positions + the tests `is a union` / `is !` that pick an alternative) is "
      "instantiated with sample sub-types (plain, union, function, function returning a union, cell, array, tuple, (), any, !) in "
      "every nested position and every list length the grammar admits; each text is parsed with the repository's grammar and must "
@@ -202,7 +202,7 @@ prop("C16",
 
 prop("C17",
      [partial(witness.run, only=("W2CodeStatic", "W4ExecIsolated")), parsepure.run, misc.run_direction,
-      partial(guard.run, only_variants=("WrongNumberOfArguments", "WrongArgument")), guard.run_mustcall, round4.run_instrstate, lock.run_global, layer.run, round4.run_declvalues, round6.run_whobinds, round8.run_shellapi],
+      partial(guard.run, only_variants=("WrongNumberOfArguments", "WrongArgument")), guard.run_mustcall, round4.run_instrstate, lock.run_global, layer.run, round4.run_declvalues, round6.run_whobinds, round8.run_shellapi, round11.run_identorder],
      "R-SHELLAPI: the shell hands its interpreter only to with_stdlib / Code::parse / Code::exec_unscoped. R-WHOBINDS: executing a program adds no name of its own to the interpreter. R-DECLVALUES. Also: parsed code holds no interior-mutable state (R-INSTRSTATE), there is no global mutable state (R-GLOBAL), and the run-time scope discipline the REPL / batch equivalence relies on (R-LAYER). Decides: isolation by type (Code: 'static; Code::exec(&self) builds its own interpreter; parse takes &Interpreter); "
      "repeatability's structural half (no execution at parse time, cells only from Mut::exec); host calls re-check arity and each "
      "argument in the same direction as in-language calls and create_call goes through create_from_variables. Does NOT decide "
